@@ -1,5 +1,7 @@
 import XyzProofs.Lemmas.Batch
 import XyzProofs.Lemmas.Core
+import XyzProofs.Lemmas.Crop
 import XyzProofs.Props.C01
 import XyzProofs.Props.C02
+import XyzProofs.Props.C04
 import XyzProofs.Props.C07
